@@ -163,6 +163,7 @@ func runC08(c *an.Ctx) {
 		}
 		checkDriverCoverage(c, "C08.c", d)
 		checkWriteBatch(c, "C08.c")
+		checkParallelProtocol(c, "C08.c", d)
 	}
 
 	// --- C08.b per-height step
